@@ -5,6 +5,7 @@ import (
 	"go/ast"
 	"go/token"
 	"go/types"
+	"regexp"
 
 	"golang.org/x/tools/go/ssa"
 )
@@ -316,6 +317,38 @@ func (ex *Exec) enterLoop(fr *Frame, h *ssa.BasicBlock, in *State) *State {
 		for _, cl := range spec.Invariants {
 			ex.fact(st, env.evalBool(cl.Text))
 		}
+		// An invariant that mentions a logical (universally quantified) contract variable is
+		// established and preserved for an arbitrary value of it, hence for all: assume its
+		// universal closure too, so that it can be used at other instances in the body.
+		if top := fr.topFrame(); len(top.logical) > 0 {
+			sc := ex.funcScope(top.fn, top.con)
+			for _, cl := range spec.Invariants {
+				mentions := false
+				for _, lv := range sc.logical {
+					if regexp.MustCompile(`\b` + regexp.QuoteMeta(lv.Name()) + `\b`).MatchString(cl.Text) {
+						mentions = true
+					}
+				}
+				if !mentions {
+					continue
+				}
+				env2 := ex.loopEnv(fr, h, st)
+				env2.head = st
+				var bound []*Term
+				for _, lv := range sc.logical {
+					ls := typeLeaves(lv.Type(), "", nil)
+					leaves := make([]*Term, len(ls))
+					for k, l := range ls {
+						leaves[k] = BoundVar("inv."+lv.Name()+l.path, l.sort)
+					}
+					pos := 0
+					env2.objs[lv] = unflatten(lv.Type(), leaves, &pos)
+					bound = append(bound, leaves...)
+				}
+				f := env2.evalBool(cl.Text)
+				ex.fact(nil, Forall(bound, Implies(st.reach, f)))
+			}
+		}
 		ex.olderAtLoad = false
 	}
 	return st
@@ -362,7 +395,6 @@ func (ex *Exec) loopExit(fr *Frame, h *ssa.BasicBlock, st *State) {
 	}
 }
 
-
 func typeParamMap(fn *ssa.Function) map[*types.TypeParam]types.Type {
 	for f := fn; f != nil; f = f.Parent() {
 		if f.TypeParams().Len() > 0 && len(f.TypeArgs()) == f.TypeParams().Len() {
@@ -375,7 +407,6 @@ func typeParamMap(fn *ssa.Function) map[*types.TypeParam]types.Type {
 	}
 	return nil
 }
-
 
 // singleStoredFunc: the function stored in a local variable that is assigned exactly once
 // (`isDigit := func(...) {...}`), or nil.
